@@ -237,11 +237,12 @@ class Ctx:
         ev = dict(property_id=self.prop, tier=self.tier, seed=self.seed, level="proof", coverage=cov,
                   assumptions=list(self.assumptions) + list(extra_assumptions),
                   wall_s=round(time.time() - self.t0, 2), violations=len(self.violations))
-        os.makedirs(EVIDENCE, exist_ok=True)
-        tmp = os.path.join(EVIDENCE, self.prop + ".json.tmp")
-        with open(tmp, "w") as f:
-            json.dump(ev, f, indent=1, default=repr)
-        os.replace(tmp, os.path.join(EVIDENCE, self.prop + ".json"))
+        if not self.replay:      # a --replay run re-executes one stored case: it is not evidence of a tier run
+            os.makedirs(EVIDENCE, exist_ok=True)
+            tmp = os.path.join(EVIDENCE, self.prop + ".json.tmp")
+            with open(tmp, "w") as f:
+                json.dump(ev, f, indent=1, default=repr)
+            os.replace(tmp, os.path.join(EVIDENCE, self.prop + ".json"))
         for k in self.known_hits:
             print("KNOWN-FINDING: property=%s %s" % (self.prop, k["what"]))
         for path, what, no_input in self.violations:
